@@ -151,7 +151,62 @@ Example C20_example :
   option_map (bytes_of (fst st1)) (nth_error (objs (fst st1)) 1) = Some [1;2;3]%N /\ snd st1 = [].
 Proof. vm_compute. repeat split; reflexivity. Qed.
 
+(* ---- the geometry-faithful model ----
+   iovec/GeoWorld.v: any number of OwningIovecs of iovec/Geo.v (slices as pointers, chunks, caches, anchors, pending
+   backrefs; every decision computed as in the source) over one heap, with every operation of GeoHistory.g1op on any object,
+   clone (of an object with no pending placeholder: the property's precondition), take, drop and new.  Every step keeps the
+   world invariant (each object good; allocation caches on distinct chunks; every pending placeholder of one object disjoint
+   from every slice of every other object) and leaves every object it does not target exactly as it was, reading the same
+   bytes.  Hence a clone holds the bytes the original held at that moment, and afterwards operations on the original (or on
+   anything else) never change the clone, nor operations on the clone the original; take() moves the entire state. *)
+From WP Require iovec.Geo iovec.GeoHistory iovec.GeoWorld.
+Theorem C20_geo_step w op w' :
+  GeoWorld.WInv w -> GeoWorld.wstep w op = Some w' ->
+  GeoWorld.WInv w' /\
+  forall j gj, ~ GeoWorld.targets op j -> GeoWorld.wo w j = Some gj ->
+    GeoWorld.wo w' j = Some gj /\ Geo.all_bytes (GeoWorld.wh w') gj = Geo.all_bytes (GeoWorld.wh w) gj.
+Proof. exact (GeoWorld.wstep_independent w op w'). Qed.
+Theorem C20_geo_history ops w w' :
+  GeoWorld.WInv w -> GeoWorld.wrun w ops = Some w' ->
+  GeoWorld.WInv w' /\
+  forall j gj, (forall op, In op ops -> ~ GeoWorld.targets op j) -> GeoWorld.wo w j = Some gj ->
+    GeoWorld.wo w' j = Some gj /\ Geo.all_bytes (GeoWorld.wh w') gj = Geo.all_bytes (GeoWorld.wh w) gj.
+Proof. exact (GeoWorld.wrun_independent ops w w'). Qed.
+Theorem C20_geo_clone w i j g w1 ops w' :
+  GeoWorld.WInv w -> GeoWorld.wo w i = Some g -> GeoWorld.wstep w (GeoWorld.WClone i j) = Some w1 ->
+  GeoWorld.wo w1 j = Some (Geo.clone g) /\ Geo.all_bytes (GeoWorld.wh w1) (Geo.clone g) = Geo.all_bytes (GeoWorld.wh w) g /\
+  GeoWorld.wo w1 i = Some g /\
+  (GeoWorld.wrun w1 ops = Some w' ->
+   ((forall op, In op ops -> ~ GeoWorld.targets op j) ->
+      GeoWorld.wo w' j = Some (Geo.clone g) /\ Geo.all_bytes (GeoWorld.wh w') (Geo.clone g) = Geo.all_bytes (GeoWorld.wh w) g) /\
+   ((forall op, In op ops -> ~ GeoWorld.targets op i) ->
+      GeoWorld.wo w' i = Some g /\ Geo.all_bytes (GeoWorld.wh w') g = Geo.all_bytes (GeoWorld.wh w) g)).
+Proof. exact (GeoWorld.clone_snapshot_independent w i j g w1 ops w'). Qed.
+Theorem C20_geo_take w i j g w1 : GeoWorld.wo w i = Some g -> GeoWorld.wstep w (GeoWorld.WTake i j) = Some w1 ->
+  GeoWorld.wo w1 j = Some g /\ GeoWorld.wo w1 i = Some Geo.empty_iov /\ GeoWorld.wh w1 = GeoWorld.wh w.
+Proof. exact (GeoWorld.take_moves w i j g w1). Qed.
+Theorem C20_geo_init : GeoWorld.WInv {| GeoWorld.wh := []; GeoWorld.wo := fun _ => None |}.
+Proof. exact GeoWorld.WInv_init. Qed.
+
+(* non-vacuity: the original keeps writing into the shared chunk (merged copies, a placeholder registered after the clone
+   and backfilled), the clone pushes into a chunk of its own; each still reads its own bytes *)
+Example C20_geo_example :
+  let b := {| Geo.bend := 6; Geo.bidx := 0; Geo.bbegin := 4; Geo.blen := 2 |}%N in
+  match GeoWorld.wrun {| GeoWorld.wh := []; GeoWorld.wo := fun _ => None |}
+          [GeoWorld.WNew 0; GeoWorld.WOp 0 (GeoHistory.HPushCopy [1;2;3]%N); GeoWorld.WClone 0 1;
+           GeoWorld.WOp 0 (GeoHistory.HPushCopy [4]%N); GeoWorld.WOp 0 (GeoHistory.HRegister [0;0]%N);
+           GeoWorld.WOp 1 (GeoHistory.HPushCopy [7;7]%N); GeoWorld.WOp 0 (GeoHistory.HBackfill (Some b) [8;9]%N)] with
+  | Some w => option_map (Geo.all_bytes (GeoWorld.wh w)) (GeoWorld.wo w 0) = Some [1;2;3;4;8;9]%N /\
+              option_map (Geo.all_bytes (GeoWorld.wh w)) (GeoWorld.wo w 1) = Some [1;2;3;7;7]%N /\ length (GeoWorld.wh w) = 2
+  | None => False
+  end.
+Proof. vm_compute. repeat split; reflexivity. Qed.
+
 Print Assumptions C20_step.
+Print Assumptions C20_geo_step.
+Print Assumptions C20_geo_history.
+Print Assumptions C20_geo_clone.
+Print Assumptions C20_geo_take.
 Print Assumptions C20_history.
 Print Assumptions C20_clone_independent.
 Print Assumptions C20_take.
